@@ -96,6 +96,13 @@ func (path *Path) GetFileList(currentDirectory string) []string {
 		var results []string
 		for _, e := range entries {
 			if !e.IsDir() && pathMatches(e.Name(), path.entries[0].value) {
+				// a symbolic link stands for what it points to: it is listed only when that is a file
+				if e.Type()&os.ModeSymlink != 0 {
+					info, err := os.Stat(currentDirectory + "/" + e.Name())
+					if err != nil || info.IsDir() {
+						continue
+					}
+				}
 				results = append(results, currentDirectory+"/"+e.Name())
 			}
 		}
